@@ -19,7 +19,7 @@ def plan_stream(tier, seed, repo_dir):
     key = (tier, seed, repo_dir)
     if key in _stream_cache:
         return _stream_cache[key]
-    n = 20000 if tier == "quick" else 200000
+    n = 20000 if tier == "quick" else 120000
     rng = G.SplitMix64(seed * 1000003 + 17)
     lines, modes = [], []
     corpus = os.path.join(C.ROOT, "corpus", "plan.txt")
@@ -52,6 +52,30 @@ def stream_stats(S):
                 waits += 1
     return {"verdicts": dict(st), "threads_histogram": dict(sorted(threads.items())), "programs_with_cross_thread_waits": waits}
 
+_W = {}
+
+def _check_chunk(rng_):
+    a, b = rng_
+    S, checks, nontrivial, needs_decl = _W["S"], _W["checks"], _W["nontrivial"], _W["needs_decl"]
+    distinct, nviol, best = set(), 0, None
+    for i in range(a, b):
+        line, impl = S["lines"][i], S["impl"][i]
+        if not impl.startswith("OK "):
+            continue
+        try:
+            P = PC.parse_dump(impl)
+        except ValueError as e:
+            return ((str(e), line), distinct, nviol, best)
+        decl = G.parse_decl(line[2:]) if needs_decl else None
+        bad = checks(P, decl)
+        if nontrivial(P):
+            distinct.add(impl)
+        if bad:
+            nviol += 1
+            if best is None or len(line) < len(best[0]):
+                best = (line, impl, bad, i)
+    return (None, distinct, nviol, best)
+
 def run_plan_property(prop, tier, seed, checks, nontrivial, describe, known_filter=None, needs_decl=False, extra_obligations=None, e2e_checks=None):
     R = C.Result(prop, tier, seed)
     repo_dir = C.ensure_repo_build()
@@ -64,21 +88,24 @@ def run_plan_property(prop, tier, seed, checks, nontrivial, describe, known_filt
     distinct = set()
     nviol = 0
     best = None
-    for i, (line, impl) in enumerate(zip(S["lines"], S["impl"])):
-        if not impl.startswith("OK "):
-            continue
-        try:
-            P = PC.parse_dump(impl)
-        except ValueError as e:
-            R.violation("unparsable implementation dump: %s" % e, {"kind": "correspondence-broken", "line": line}); break
-        decl = G.parse_decl(line[2:]) if needs_decl else None
-        bad = checks(P, decl)
-        if nontrivial(P):
-            distinct.add(impl)
-        if bad:
-            nviol += 1
-            if best is None or len(line) < len(best[0]):
-                best = (line, impl, bad, i)
+    # (the conditions are evaluated in parallel worker processes: forked, so that the closures are shared)
+    _W.update(S=S, checks=checks, nontrivial=nontrivial, needs_decl=needs_decl)
+    n = len(S["lines"])
+    chunks = [(a, min(a + 2000, n)) for a in range(0, n, 2000)]
+    if n > 4000:
+        import multiprocessing as mp
+        with mp.get_context("fork").Pool(min(14, len(chunks))) as pool:
+            parts = pool.map(_check_chunk, chunks)
+    else:
+        parts = [_check_chunk(c) for c in chunks]
+    for err, dist, nv, bst in parts:
+        if err:
+            R.violation("unparsable implementation dump: %s" % err[0], {"kind": "correspondence-broken", "line": err[1]})
+            break
+        distinct.update(dist)
+        nviol += nv
+        if bst is not None and (best is None or len(bst[0]) < len(best[0])):
+            best = bst
     if best:
         line, impl, bad, i = best
         R.violation("%s: %s  [declaration #%d: %s]" % (describe, bad[0], i, line[2:]),
